@@ -156,7 +156,7 @@ META["C08"] = {
 
 META["C07"] = {
     "title": "Scheduler-moving operators preserve the source's sequence",
-    "rule": "cases = (one or two of observe_on / delay / delay_at / delay_subscription / delay_subscription_at / subscribe_on in local or _threads form, optionally between transparent operators, timed script of 1..n uniquely numbered items (quick n=5, thorough n=9) with terminal none/complete/error and gaps {0,1,2,5,10,60} ms, delays {0,1,5,50} ms, instants {past, now, +40ms, +1h}, executor class fifo (FIFO task order, equal deadlines woken in creation order) or any-order (any ready task next, equal deadlines in any order), prompt or late schedule, schedule seed). Subscription-moving operators get a cold source. Non-trivial: at least two tasks were ready at once or a delay was pending across an input event; distinct = hash(case). A violation is blamed on the first scheduler operator of the case that shows the same violation kind alone. A share of the cases (counter runs_on_the_real_LocalPool) is built with the library's own `impl Scheduler for futures::executor::LocalSpawner` and run on the real futures LocalPool (run_until_stalled / try_run_one) instead of the harness executor.",
+    "rule": "cases = (one or two of observe_on / delay / delay_at / delay_subscription / delay_subscription_at / subscribe_on in local or _threads form, optionally between transparent operators, timed script of 1..n uniquely numbered items (quick n=5, thorough n=9) with terminal none/complete/error and gaps {0,1,2,5,10,60} ms, delays {0,1,5,50} ms, instants {past, now, +40ms, +1h}, executor class fifo (FIFO task order, equal deadlines woken in creation order) or any-order (any ready task next, equal deadlines in any order), prompt or late schedule, schedule seed). Subscription-moving operators get a cold source. Non-trivial: at least two tasks were ready at once or a delay was pending across an input event; distinct = hash(case). A violation is blamed on the first scheduler operator of the case that shows the same violation kind alone. A share of the cases (counter runs_on_the_real_LocalPool) is built with the library's own `impl Scheduler for futures::executor::LocalSpawner` and run on the real futures LocalPool (run_until_stalled / try_run_one) instead of the harness executor. Thread part (scenarios observe_on_threads[fifo-worker], delay_threads[fifo-worker]): one producer thread emits 1-4 items and an optional terminal into observe_on_threads / delay_threads(0|1ms) while ONE worker thread runs the scheduled tasks in FIFO order and fires the virtual timers (a single-threaded pool on its own thread), optionally with an unsubscribing thread; random/PCT and preemption-bounded systematic schedules at the hooked lock points plus free-running OS threads; whatever is still scheduled when the threads end is run FIFO afterwards; oracle: no invented or duplicated item, source order kept, and without an unsubscribe every item then the terminal arrived.",
     "assumptions": COMMON_ASSUME + [
         "item identity by unique ids; 'never earlier' is judged on virtual stamps: delivery >= emission + sum of configured delays; for _at forms the real time the case took (+1 ms) is the tolerance",
         "the any-order executor models a k-worker pool; the real futures ThreadPool is not under the explorer's control",
@@ -165,7 +165,7 @@ META["C07"] = {
     "level_text": "Exploration over sampled scripts and task orders under two executor models.",
     "level_note": "Trusted: virtual clock, arena executor behind the VerifScheduler hook (the library's own remote_handle / Remote::poll / delay-await code runs unchanged).",
     "design_ref": "DESIGN.md §5 C07",
-    "require": {"quick": {"runs_where_task_order_was_a_choice": 10000, "operators_covered": 8}, "thorough": {"operators_covered": 8}},
+    "require": {"quick": {"runs_where_task_order_was_a_choice": 10000, "operators_covered": 8, "thread_schedules": 5000, "free_parallel_runs": 1000}, "thorough": {"operators_covered": 8, "thread_schedules": 200000, "free_parallel_runs": 80000}},
 }
 
 META["C09"] = {
@@ -322,7 +322,7 @@ META["C10"] = {
     "level_text": "Exploration: preemption-bounded systematic enumeration (bound 1 quick, 2 thorough) on small scenarios of all 20 families plus sampled lock-level interleavings (uniform + PCT); logical deadlock detection is exact on every schedule run.",
     "level_note": "Trusted: baton scheduler (harness/src/conc.rs), the lock hook placement before MutArc::lock, probes.",
     "design_ref": "DESIGN.md §5 C10",
-    "require": {"quick": {"thread_scenarios_covered": 20, "distinct_thread_schedules": 8000, "systematic_scenarios": 40}, "thorough": {"thread_scenarios_covered": 20, "systematic_scenarios": 160}},
+    "require": {"quick": {"thread_scenarios_covered": 22, "distinct_thread_schedules": 8000, "systematic_scenarios": 40}, "thorough": {"thread_scenarios_covered": 22, "systematic_scenarios": 160}},
     "watchdog_s": {"quick": 600, "thorough": 7200},
 }
 
